@@ -199,12 +199,16 @@ def run(ck):
     # ---------------------------------------------------------------- sample(): forwarding, start state
     for scls in ("PositiveWaveFunction", "ComplexWaveFunction", "DensityMatrix"):
         ssite = prog.method(scls, "sample").site()
-        for ow, form in ((False, ("B", "nv")), (True, ("B", "nv")), (False, ("nv",)), (True, ("nv",))):
-            inst = "%s.sample/overwrite=%s%s" % (scls, ow, "" if len(form) == 2 else "/1-D start state")
+        for ow, form in ((False, ("B", "nv")), (True, ("B", "nv")), (False, ("nv",)), (True, ("nv",)), (True, ("B", "nv", "float32"))):
+            f32 = form[-1] == "float32"  # "every start state": 0/1 configurations kept in single precision (or as integers)
+            form = form[:-1] if f32 else form
+            inst = "%s.sample/overwrite=%s%s%s" % (scls, ow, "" if len(form) == 2 else "/1-D start state", "/float32 start state" if f32 else "")
             with ck.guard("C05.R3", inst, ssite):
-                def th(it):
+                def th(it, f32=f32, form=form):
                     s = make_state(it, scls)
                     v0 = tens(it, "init", form)
+                    if f32:
+                        v0.obj.fw = 32
                     k = VNum("int", T.sym("k"), nonneg=True)
                     r = call(it, s, "sample", k, initial_state=v0, overwrite=VConst(ow))
                     return v0, r, k
@@ -227,7 +231,11 @@ def run(ck):
                         ck.check(rb is not None, "C05.R2", inst + ":uses rbm_am", ssite, "gibbs_steps receiver is not the amplitude network")
                     writes_init = [e for e in p.effects if "param:init" in e.origins and e.kind in ("write", "meta")]
                     if ow:
-                        ck.check(r.obj is v0.obj and bool(writes_init), "C05.R3", inst + ":in place", ssite, "overwrite=True does not update and return the caller's tensor")
+                        # updated in place; what is returned is the caller's tensor itself or - for a start state of another dtype - the
+                        # same new state in the model's dtype
+                        same_val = r.obj is v0.obj or (f32 and r.term is not None and r.term == v0.obj.term)
+                        ck.check(bool(same_val) and bool(writes_init), "C05.R3", inst + ":in place", ssite,
+                                 "overwrite=True does not update the caller's tensor in place" if not writes_init else "overwrite=True does not return the updated state")
                     else:
                         ck.check(not writes_init and r.obj.origin == "fresh", "C05.R3", inst + ":untouched", writes_init[0].site if writes_init else ssite,
                                  "overwrite=False writes or returns the caller's tensor")
